@@ -10,6 +10,7 @@ import RSVerif.Gen.SrcUtils
 import RSVerif.Model.Engine
 import RSVerif.Model.TableInit
 import RSVerif.Proofs.Walsh
+import RSVerif.Proofs.SrcTablesAux
 
 namespace RS.SrcU
 open RS RS.RustU
@@ -18,23 +19,26 @@ open RS RS.RustU
 def U16t (a : Array Nat) : Prop := ∀ i, a.getD i 0 < 65536
 
 /-- the constants of the source are the constants of the model -/
-theorem src_cantor_basis : CANTOR_BASIS = (cantorBasis.map (·.toNat)).toArray := by
-  sorry
+theorem src_cantor_basis : CANTOR_BASIS = (cantorBasis.map (·.toNat)).toArray :=
+  SrcT.cantor_basis_eq
 
 /-- `initialize_exp_log` of the source = `initExpLog` of the model (a closed statement: no inputs) -/
-theorem src_initialize_exp_log : U_initialize_exp_log = some initExpLog := by
-  sorry
+theorem src_initialize_exp_log : U_initialize_exp_log = some initExpLog :=
+  SrcT.exp_log_src
 
 /-- `initialize_log_walsh`, given that the translated `fwht` is the model's (proved in SrcUtilsSpec.lean) -/
 theorem src_initialize_log_walsh_of (log : Array Nat) (hs : log.size = 65536) (hl : U16t log)
     (hf : ∀ d : Array Nat, d.size = 65536 → (∀ i, d.getD i 0 < 65536) → U_fwht d 65536 = some (fwht d 65536)) :
     U_initialize_log_walsh log = some (initLogWalsh log) := by
-  sorry
+  unfold U_initialize_log_walsh initLogWalsh
+  simp only [Array.size_replicate, hs, if_true, SrcT.bind_some', Nat.zero_lt_succ, Array.set!_eq_setIfInBounds]
+  rw [hf _ (by rw [Array.size_setIfInBounds, hs]) (SrcT.U16_set hl _ _ (by omega))]
+  rfl
 
 /-- `initialize_skew` for ANY `exp` / `log` tables of 65536 `u16` entries -/
 theorem src_initialize_skew (exp log : Array Nat) (hE : exp.size = 65536) (hL : log.size = 65536)
     (he : U16t exp) (hl : U16t log) :
-    U_initialize_skew exp log = some (initSkew exp log) := by
-  sorry
+    U_initialize_skew exp log = some (initSkew exp log) :=
+  SrcT.skew_src exp log hE hL he hl
 
 end RS.SrcU
